@@ -48,9 +48,9 @@ def gen_model(rnd, structure="ok", bad_value=False):
         d = {"fmt": f, "d": rnd.choice([0, 1, 7, 30]), "h": rnd.choice([0, 1, 8, 9, 10, 23, rnd.randint(0, 23)]), "m": rnd.choice([0, 5, 8, 9, 59, rnd.randint(0, 59)]),
              "s": rnd.choice([0, 1, 8, 9, 30, 59, rnd.randint(0, 59)])}
         if f == "sec":
-            d["s"] = rnd.choice([1, 300, 600, 3600, 86400, 604800])
-        if f in ("sec", "hm", "hms") and rnd.random() < 0.4:
-            d["pad"] = rnd.choice([2, 3, 4])
+            d["s"] = rnd.choice([0, 1, 300, 600, 3600, 86400, 604800])
+        if f in ("sec", "hm", "hms") and rnd.random() < 0.4 and not (f == "sec" and d["s"] == 0):
+            d["pad"] = rnd.choice([2, 3, 4])          # (not for plain 0: "0000" is nobody's way of writing zero seconds, and gokrb5 refuses it)
         if f == "dhms":
             use = {u: rnd.random() < 0.6 for u in "dhms"}
             if not any(use.values()):
